@@ -227,15 +227,14 @@ theorem indexOf_go_sep (a b : Text) (n : Nat) (ha : (32 : Byte) ∉ a) :
     simp only [List.length_cons]
     congr 1; omega
 
-/-- **`getTestID` parses back the header of a test whose name starts with `Test` and contains no
-space** (Go test names never do: `testing` rewrites the spaces of sub-test names to `_`) -/
-theorem getTestID_testID (t : Text) (k : Nat) (hpre : hasPrefix t [84, 101, 115, 116] = true)
-    (hsp : (32 : Byte) ∉ t) :
+/-- **`getTestID` parses back the header of every test whose name contains no space** (Go test
+names never do: `testing` rewrites the spaces of sub-test names to `_`), whatever the name starts
+with (`Test…`, `Fuzz…`, `Benchmark…`) -/
+theorem getTestID_testID (t : Text) (k : Nat) (hsp : (32 : Byte) ∉ t) :
     getTestID (testID t k) = some (t ++ [32, 45, 32] ++ natToText k) := by
   have hb : testID t k = (91 :: t) ++ [32, 45, 32] ++ (natToText k ++ [93]) := by simp [testID]
   have h1 : testID t k ≠ [] := C03.testID_ne_nil t k
   have h2 : hasPrefix (testID t k) Generated.headerPrefix = true := by
-    obtain ⟨t', rfl⟩ := List.isPrefixOf_iff_prefix.mp hpre
     simp [testID, hasPrefix, Generated.headerPrefix]
   have h3 : (testID t k).getLast? = some 93 := by
     have : testID t k = (91 :: t ++ [32, 45, 32] ++ natToText k) ++ [93] := by simp [testID]
@@ -270,29 +269,28 @@ theorem getTestID_testID (t : Text) (k : Nat) (hpre : hasPrefix t [84, 101, 115,
   simp only [h2, h3, h4, hsl, Bool.not_true, ne_eq, not_true_eq_false, decide_false, Bool.or_self,
     Bool.false_eq_true, ↓reduceIte, hlo, h5, h6, h7]
 
-theorem recognised_testID (t s : Text) (k : Nat) (hpre : hasPrefix t [84, 101, 115, 116] = true)
-    (hsp : (32 : Byte) ∉ t) : Recognised ⟨testID t k, s⟩ := by
+theorem recognised_testID (t s : Text) (k : Nat) (hsp : (32 : Byte) ∉ t) : Recognised ⟨testID t k, s⟩ := by
   unfold Recognised
-  rw [getTestID_testID t k hpre hsp, tidOf_testID]
+  rw [getTestID_testID t k hsp, tidOf_testID]
 
-/-- **all headers of a history are recognised** when the test names start with `Test` and contain
-no space: discharges `hrecH` of the main theorems -/
+/-- **all headers of a history are recognised** when the test names contain no space: discharges
+`hrecH` of the main theorems -/
 theorem recognised_history (h : List Step)
-    (hn : ∀ t ∈ calledNames h, hasPrefix t [84, 101, 115, 116] = true ∧ (32 : Byte) ∉ t) :
+    (hn : ∀ t ∈ calledNames h, (32 : Byte) ∉ t) :
     ∀ e ∈ entriesOf h, Recognised e := by
   intro e he
   obtain ⟨t, k, hid, _, ht⟩ := entriesFrom_ids h [] e he
-  obtain ⟨h1, h2⟩ := hn t ht
+  have h2 := hn t ht
   have : e = ⟨testID t k, e.body⟩ := by cases e; simp only at hid; rw [hid]
   rw [this]
-  exact recognised_testID t e.body k h1 h2
+  exact recognised_testID t e.body k h2
 
 /-- … it IS needed: the sub-test name `Test/a - b` contains the separator, `getTestID` stops at
-the first `" - "`, finds `b - 1` where it expects digits, and does not recognise the header;
-neither does it recognise a name that does not start with `Test` -/
+the first `" - "`, finds `b - 1` where it expects digits, and does not recognise the header; a
+name that does not start with `Test` is recognised (it was not before the repair of D11) -/
 example :
     getTestID (testID [84, 101, 115, 116, 47, 97, 32, 45, 32, 98] 1) = none ∧
-    getTestID (testID [65] 1) = none ∧
+    getTestID (testID [65] 1) = some [65, 32, 45, 32, 49] ∧
     getTestID (testID [84, 101, 115, 116, 65] 12) =
       some [84, 101, 115, 116, 65, 32, 45, 32, 49, 50] := by decide
 
@@ -389,11 +387,11 @@ example :=
     hyps.2.2.1 hyps.2.2.2.1 hyps.2.2.2.2.1 hyps.2.2.2.2.2.1 hyps.2.2.2.2.2.2.1
     hyps.2.2.2.2.2.2.2.1 hyps.2.2.2.2.2.2.2.2.1 hyps.2.2.2.2.2.2.2.2.2.1 (by decide +kernel)
 
-/-- `hrecH` is needed: a test named "A" (no `Test` prefix) records "[A - 1]", which `getTestID`
-does not recognise; pruning the stale "[TestZ - 1]" rewrites the file from the scanned ids only,
-the entry of "A" is gone, and the replay (on CI) fails with "snapshot not found" -/
+/-- `hrecH` is needed: a (mock) test named "A - b" records "[A - b - 1]", which `getTestID` does
+not recognise (it stops at the first separator); pruning the stale "[TestZ - 1]" rewrites the file
+from the scanned ids only, the entry is gone, and the replay (on CI) fails with "snapshot not found" -/
 example :
-    let h : List Step := [.call [65] [120] .raw 1]
+    let h : List Step := [.call [65, 32, 45, 32, 98] [120] .raw 1]
     let rcd := recordRun envClean {} exCaller fs₀ h
     let cl := clean {} rcd.1 false [] 1
     let rep := replayRun ⟨true, ""⟩ {} exCaller cl.1 h
